@@ -253,6 +253,54 @@ span_then_event!(c07_k2_span_tf_then_event, true, false);
 span_then_event!(c07_k2_span_ft_then_event, false, true);
 span_then_event!(c07_k2_span_ff_then_event, false, false);
 
+/// a *global* filter layer below a per-layer-filtered layer rejects an emission (short-circuit in
+/// `Layered::enabled`); the per-layer bits set so far must not leak into the next emission, whose interest is
+/// cached `always`
+#[kani::proof]
+#[kani::unwind(3)]
+#[kani::stub(std::rt::thread_cleanup, noop)]
+#[kani::stub(core::fmt::write, fmt_write_stub)]
+#[kani::stub(std::collections::HashMap::clear, hm_clear)]
+fn c07_k2_global_reject_then_event() {
+    vtable_hint();
+    // registry().with(global = L2 acting as a context-dependent global filter).with(L1.with_filter(F1))
+    let __stack = core::mem::ManuallyDrop::new(tracing_subscriber::subscribe::CollectExt::with(
+        tracing_subscriber::subscribe::CollectExt::with(Registry::default(), &L2),
+        (&L1).with_filter(&F1)));
+    let st = unsafe { crate::common::extend(&*__stack) };
+    {
+        let d = tracing_core::__verif::dispatch_unregistered(st);
+        core::mem::forget(tracing_core::dispatch::set_default(&d));
+    }
+    // emission X: a span callsite; the per-layer filter's verdict is symbolic, the global filter rejects it
+    let f_x: bool = kani::any();
+    F1.sp.store(f_x as u8, Ordering::Relaxed);
+    F1.interest_sp.store(1, Ordering::Relaxed);
+    L2.ans_interest.store(1, Ordering::Relaxed);
+    L2.ans_enabled.store(0, Ordering::Relaxed);
+    let sm = sp_meta(3);
+    let cx = st.register_callsite(sm);
+    assert!(!cx.is_always());
+    if !cx.is_never() {
+        assert!(!st.enabled(sm));
+    }
+    assert!(f::bits() == 0);
+    // emission Y: an event every filter accepts statically
+    F1.ev.store(1, Ordering::Relaxed);
+    F1.interest_ev.store(2, Ordering::Relaxed);
+    L2.ans_interest.store(2, Ordering::Relaxed);
+    L2.ans_enabled.store(1, Ordering::Relaxed);
+    let m = ev_meta(3);
+    let cy = st.register_callsite(m);
+    assert!(cy.is_always());
+    emit_event(st, m, &cy);
+    assert!(ld(&L1.event) == 1);
+    assert!(ld(&L2.event) == 1);
+    assert!(f::bits() == 0);
+    kani::cover!(!f_x);
+    kani::cover!(f_x);
+}
+
 #[kani::proof]
 #[kani::unwind(3)]
 #[kani::stub(std::rt::thread_cleanup, noop)]
